@@ -600,4 +600,27 @@ def run(ctx):
         else:
             r.fail(twin, twin.node, "IO.%s / IO.%s delegate differently" % (name, twin.name),
                    "IO.%s and IO.%s no longer delegate the same way (%s vs %s): the same text is written differently to the two streams" % (name, twin.name, a, b))
+    # ---------------------------------------------------------------- R11
+    r = ctx.rule("C11-R11", "SIBLING", "'a style passed for a single call' reaches the formatter through every facade: a method of IO / Output that forwards to the method of the "
+                 "same name one layer down hands on every one of its parameters (format(string, style) does not become format(string))", reference=14)
+    n11 = 0
+    for cls in (io_cls, out_cls):
+        for name, m in sorted(cls.methods.items()):
+            prm = [a for a in m.params if a != "self"]
+            if not prm:
+                continue
+            for c in [x for x in q.calls(m) if isinstance(x.func, ast.Attribute) and x.func.attr == name and not (isinstance(x.func.value, ast.Name) and x.func.value.id == "self")
+                      and not (isinstance(x.func.value, ast.Call) and isinstance(x.func.value.func, ast.Name) and x.func.value.func.id == "super" and False)]:
+                used = {n.id for a in list(c.args) + [k.value for k in c.keywords] for n in ast.walk(a) if isinstance(n, ast.Name)}
+                if not (used & set(prm)):
+                    continue  # not a forwarding call of this method's own arguments
+                n11 += 1
+                miss = [a for a in prm if a not in used]
+                if miss:
+                    r.fail(m, c, "%s.%s drops %s" % (cls.name, name, ", ".join(miss)), "%s.%s forwards to %s without its parameter %s: what the caller passes for it is ignored at this layer only "
+                           "(io.format(text, style) renders without the style, output.format(text, style) with it)" % (cls.name, name, norm(c.func), ", ".join(miss)))
+                else:
+                    r.ok("%s.%s forwards %s" % (cls.name, name, ", ".join(prm)))
+    ctx.require(n11 >= 4, "the forwarding methods of IO / Output were not found")
+
     return ctx.results
